@@ -82,3 +82,31 @@ def seg_records(trc_path, completed=True):
                 recs.append({"ev": "EndSeg", "t": recs[0]["t"], "a": []})
             out.append(recs)
     return out
+
+
+_dec = {}
+
+
+def dec_record_exe(variant="hooks"):
+    with _enc_lock:
+        if variant not in _dec:
+            _dec[variant] = vlib.build_harness("dec_record", ["dec_record.c"], variant=variant, sync=True,
+                                               alloc=False, libs=("dec",))
+    return _dec[variant]
+
+
+def run_dec(pkts, out, args, timeout=120, variant="hooks"):
+    """Run the decoder-side recorder; returns dict rc, events."""
+    exe = dec_record_exe(variant)
+    cmd = [exe, "--pkts", pkts, "--out", out, "--timeout", str(timeout)] + list(args)
+    rc, log = vlib.sh(cmd, timeout=timeout + 30)
+    evs = []
+    if os.path.exists(out):
+        for line in open(out):
+            line = line.strip()
+            if line:
+                try:
+                    evs.append(json.loads(line))
+                except ValueError:
+                    pass
+    return {"rc": rc, "events": evs, "log": log, "cmd": cmd}
